@@ -537,8 +537,8 @@ Proof.
   - (* CRemoveReact *) destruct (is_alive e w); [|exact H]. destruct (alookup2 c e (comps w)); [frame_eq H|exact H].
   - (* CDespawn *) apply wf_despawn. exact H.
   - (* CDespawnRec *) apply wf_despawn. exact H.
-  - (* CSpawnSys *) destruct (is_alive s w); [frame_eq H|exact H].
-  - (* CInsertOnce *) destruct (is_alive s w); cbn [negb fst]; [frame_eq H|frame_eq H].
+  - (* CSpawnSys *) destruct (is_alive s w && negb (memN s (spawned w))); [frame_eq H|exact H].
+  - (* CInsertOnce *) destruct (is_alive s w); cbn [negb fst]; [destruct (negb (memN s (spawned w))); [frame_eq H|exact H]|frame_eq H].
   - (* CRegister *)
     assert (Hh : forall h w0, wf_tables w0 -> wf_tables (fst (let (w1, cs) := reg_triggers_cmds h b w0 in (handle_drop h w1, cs)))).
     { intros h w0 H0. pose proof (wf_reg_triggers_cmds h b w0 H0) as H1. destruct (reg_triggers_cmds h b w0) as [w1 cs]. apply wf_handle_drop. exact H1. }
@@ -604,7 +604,7 @@ Qed.
 Lemma wf_init : wf_tables (install_static P init_world).
 Proof.
   unfold install_static.
-  assert (Hgen : forall l w, wf_tables w -> wf_tables (fold_left (fun w s => (reserve s w) <| storage ::= aset s true |> <| cbs ::= aset s (mkCb None 0 0 false true) |>) l w)).
+  assert (Hgen : forall l w, wf_tables w -> wf_tables (fold_left (fun w s => (reserve s w) <| storage ::= aset s true |> <| cbs ::= aset s (mkCb None 0 0 false true) |> <| spawned ::= cons s |>) l w)).
   { induction l as [|s l IH]; intros w H; cbn [fold_left]; [exact H|]. apply IH.
     eapply wf_frame_eq; [| |apply (wf_reserve s w H)]; reflexivity. }
   apply Hgen. constructor; cbn; try constructor. intros e [].
